@@ -27,7 +27,8 @@ def lit(rng, k):
     if k == "bool":
         return rng.choice(["true", "false"])
     if k == "string":
-        return rng.choice(['"a"', '"hello"', '"x y"'])
+        # ASCII and multi-byte strings (UTF-8 length differs from the character count)
+        return rng.choice(['"a"', '"hello"', '"x y"', '"héllo"', '"naïve café"', '"日本語"', '"ß"', '"a→b"', '"😀 ok"'])
     if k == "r64":
         return rng.choice(["1/2", "3/4", "5/3"])
     if k == "c64":
@@ -52,7 +53,7 @@ def restricted_program(rng):
         return stmts, False
     if k == "string":
         stmts.append("a := %s" % lit(rng, k)); stmts.append("b := %s" % lit(rng, k))
-        stmts.append(rng.choice(["a == b", "a != b", "a", "m := [a b]\nm[2]"]))
+        stmts.append(rng.choice(["a == b", "a != b", "a", "m := [a b]\nm[2]", "c := b", "c := a\nd := b"]))
         return stmts, False
     ops = ["+", "-", "*", "/"] + (["%", "^"] if k in ("f64", "u8", "u16", "u32") else []) + ["<", ">", "<=", ">=", "==", "!="]
     if k == "r64":
